@@ -30,7 +30,7 @@ CLAIMED = {
  "C06": dict(technique="pairing / ordering / lineage rules on the MIR of the analysis collector (must-pass-through, edge dominance, value lineage by backward slicing)",
              text="Decides structural necessary conditions of referential consistency: step item indices come from the same-kind collector method which returns len(table)-1 of the table it pushed to; content and location tables are pushed in lock-step; references are set from a search that excludes references, and listed back exactly once before the push; the step counter is reset per section and bumped per pushed step; empty sections are not pushed; intermediate references are bounds-checked and step-filtered; every component made a reference also receives the REF modifier and is reported to the caller (which adds the back link); a timer without a name is built only where its quantity is known to be present; text items are built only under a non-empty test of their value (analysis side) or of the parsed text (step parser side). Name equality, document order and emptiness of steps are not decided.",
              ref="DESIGN.md §5 C06"),
- "C10": dict(technique="must-pass-through store analysis of GroupedQuantity::add / GroupedValue::add, field-coverage of readers, insert-result usage, lineage of the listing pipeline",
+ "C10": dict(technique="must-pass-through store analysis of GroupedQuantity::add / GroupedValue::add, field-coverage of readers, insert-result usage, lineage of the listing pipeline, formula shape of Value::try_add",
              text="Decides that no path through the grouping functions drops its argument, that every reader of a grouped quantity covers all four stores, that quantity-map inserts cannot silently overwrite (one reviewed finding), that a text value can never be stored into a running total, that the common unit of an addition is the left operand's, and that totals are built from the definition plus its referenced_from entries, definitions only, listed-only, keyed by display name. Numerical sums and fit() are not decided.",
              ref="DESIGN.md §5 C10"),
  "C11": dict(technique="C03 inventories restricted to the aisle module + lookup/insert pairing by dominance and key-expression equality + span formula shape + value lineage of the lookup map + writer/reader delimiter agreement from decoded format templates",
@@ -51,10 +51,10 @@ CLAIMED = {
  "C02": dict(technique="gate-dominance analysis on MIR (edge dominators, bool::then closures, call-site propagation) + confinement inventory of Extensions reads + argument lineage + const-evaluated bit layout",
              text="Decides four structural necessary conditions of extension independence: each construct that implements an extension's special reading is dominated by the flag-set outcome of a test of its own flag; the control-relevant reads of an Extensions value are exactly the reviewed gate sites; the extension set handed to sub-parsers and the analysis is the configured one; flag bits are disjoint as documented; every text item of a step, in the INLINE_QUANTITIES arm and in the plain arm, is cut from the same joined text; range operands are the two sides of one cut. It does not decide that gated code is a no-op on core syntax (a parse result).",
              ref="DESIGN.md §5 C02"),
- "C03": dict(technique="MIR inventories of failure sites, integer arithmetic, index/slice sites with machine-checked discharge conditions (guard dominance, ordering, modular-counter discipline) + must-pass-through progress analysis of every loop and recursion cycle",
+ "C03": dict(technique="MIR inventories of failure sites, integer arithmetic, index/slice sites and panicking std API calls with machine-checked discharge conditions (guard dominance, ordering, modular-counter discipline) + must-pass-through progress analysis of every loop and recursion cycle",
              text="Decides that the set of ways the two library crates can fail to return (explicit panics/asserts/unwraps, unsafe operations, overflowing narrow-integer arithmetic and usize subtraction, index and slice accesses, loops and recursion without a progress construct) is exactly the reviewed set: every site is enumerated on the MIR of the current tree and must match tables/panics.toml, narrow_arith.toml, index_sites.toml, progress.toml, and where the invariant that makes a site safe is a local dominance fact it is re-verified on every run; todo!() is never acceptable; token slices handed to slice_str/text/float are never filtered copies (debug_assert_adjacent); every offset that reaches a diagnostic label has an accepted provenance (report rendering panics otherwise; shared with C04.D1). It does not decide that a guard condition is numerically right, usize additions, stack depth or dependency internals.",
              ref="DESIGN.md §5 C03"),
- "C18": dict(technique="effect analysis over the resolved call graph (statics, interior mutability, hash iteration, ambient inputs, pointer identity, unsafe) + type-reachability of parser state",
+ "C18": dict(technique="effect analysis over the resolved call graph (statics, interior mutability, hash iteration, ambient inputs incl. calls into dependencies with process-wide switches, pointer identity, unsafe) + type-reachability of parser state",
              text="Decides that no function reachable from the parse entry points contains a source of hidden state or nondeterminism and that the parser type holds no shared writable state (Freeze, Send+Sync, &self entry points). This is the whole structural content of the property; what remains is the trusted base (dependencies summarised as pure, user closures).",
              ref="DESIGN.md §5 C18"),
 }
